@@ -70,6 +70,25 @@ _NUM_RE = re.compile(r"(?:[0-9]+\.?[0-9]*|\.[0-9]+)")
 _WORD_RE = re.compile(r"[A-Za-z_][A-Za-z0-9_]*")
 
 
+# characters that no documented token contains (outside quotes); '-', '+', '*' are left "undocumented" (signed
+# numbers / globbing could be read into them)
+ILLEGAL_CHARS = set("&|=;,:[]{}@#$%^~?`")
+# backslash sequences inside a quoted literal whose value is the same whether the quotes are read as a python string
+# literal (unknown escape: backslash kept) or verbatim -- the regular-expression classes and escaped metacharacters
+SAFE_ESCAPED = set("dwsDWS.+*?()[]$^|{}")
+
+
+def escapes_are_safe(body):
+    i = 0
+    while True:
+        i = body.find("\\", i)
+        if i < 0:
+            return True
+        if i + 1 >= len(body) or body[i + 1] not in SAFE_ESCAPED:
+            return False
+        i += 2
+
+
 class Malformed(Exception):
     def __init__(self, cls, msg=""):
         super().__init__(cls + (": " + msg if msg else ""))
@@ -114,9 +133,13 @@ def tokenize(s):
             if c in "'\"":
                 j = s.find(c, i + 1)
                 if j < 0:
-                    raise Undocumented("unterminated quote")
+                    # no documented token starts with a quote that is never closed (a backslash before it could be
+                    # meant as an escape: left undocumented)
+                    if "\\" in s:
+                        raise Undocumented("unterminated quote")
+                    raise Malformed("unterminated-quote")
                 body = s[i + 1:j]
-                if "\\" in body or "\n" in body:
+                if "\n" in body or not escapes_are_safe(body):
                     raise Undocumented("escape sequence or newline inside a quoted literal")
                 toks.append(Tok("STR", s[i:j + 1], i, j + 1, body))
                 i = j + 1
@@ -148,6 +171,10 @@ def tokenize(s):
                 else:
                     toks.append(Tok("WORD", txt, i, j, txt))
                 i = j
+            elif c in ILLEGAL_CHARS:
+                # not part of any documented token (the documented operators made of these characters were tried
+                # first: && || == != =~): the string is not an expression of the language
+                raise Malformed("illegal-character", repr(c))
             else:
                 raise Undocumented(f"character {c!r} outside the documented lexicon")
     return toks
@@ -413,6 +440,9 @@ class Parsed:
         except Undocumented as e:
             self.status, self.reason = "undocumented", str(e)
             return
+        except Malformed as e:
+            self.status, self.reason = "malformed", e.cls
+            return
         try:
             self.tree = _Parser(self.toks).parse()
         except Malformed as e:
@@ -614,9 +644,11 @@ def quote_forms(value, as_number=False):
     forms = []
     if BARE_RE.match(value) and value not in RESERVED:
         forms.append(value)
-    if "'" not in value and "\\" not in value:
+    if "\n" in value or not escapes_are_safe(value):
+        return forms
+    if "'" not in value:
         forms.append("'" + value + "'")
-    if '"' not in value and "\\" not in value:
+    if '"' not in value:
         forms.append('"' + value + '"')
     return forms
 
@@ -726,3 +758,93 @@ def widen(p):
             out.append(seps[i % len(seps)])
         out.append(tk.text)
     return " " + "".join(out) + " \n"
+
+
+def widen_nl(p):
+    """Whitespace between tokens widened with line breaks (LF, CRLF) and tabs; the documented language is
+    token-based, a line break is optional whitespace like a blank."""
+    out = []
+    seps = ["\n", " \r\n", "\t\n ", "\n\n", " "]
+    for i, tk in enumerate(p.toks):
+        if i > 0:
+            out.append(seps[i % len(seps)])
+        out.append(tk.text)
+    return "\n" + "".join(out) + "\r\n"
+
+
+# ------------------------------------------------------------------------------ documented meaning, wider name tables
+# Residue.is_water documents its name list by reference: "Residue names according to VMD"
+# (http://www.ks.uiuc.edu/Research/vmd/vmd-1.3/ug/node133.html: "water: residues named H2O HHO OHH HOH OH2 SOL WAT
+#  TIP TIP2 TIP3 TIP4")
+VMD_WATER = ("H2O", "HHO", "OHH", "HOH", "OH2", "SOL", "WAT", "TIP", "TIP2", "TIP3", "TIP4")
+# residues "found in proteins" beyond the 20 standard ones, with the one-letter code of the wwPDB chemical component
+# dictionary (parent residue); caps (no code judged)
+KNOWN_MODIFIED = {"MSE": "M", "SEP": "S", "TPO": "T", "PTR": "Y", "HYP": "P", "SEC": "U", "PYL": "O", "ASX": "B",
+                  "GLX": "Z", "UNK": "X", "CYM": "C", "HIP": "H", "LYN": "K"}
+KNOWN_CAPS = ("ACE", "NME")
+STD_CODES = {"ALA": "A", "ARG": "R", "ASN": "N", "ASP": "D", "CYS": "C", "GLN": "Q", "GLU": "E", "GLY": "G",
+             "HIS": "H", "ILE": "I", "LEU": "L", "LYS": "K", "MET": "M", "PHE": "F", "PRO": "P", "SER": "S",
+             "THR": "T", "TRP": "W", "TYR": "Y", "VAL": "V"}
+# names that are certainly neither protein nor water
+KNOWN_OTHER = ("NA", "CL", "ZN", "K", "MG", "NA+", "CL-", "Cl-", "LIG", "A", "C", "G", "U", "DA", "DC", "DG", "DT")
+# standard atomic weights (IUPAC abridged); `mass` is documented as "Element atomic mass (daltons)"
+ATOMIC_WEIGHT = {"H": 1.008, "Li": 6.94, "C": 12.011, "N": 14.007, "O": 15.999, "F": 18.998, "Na": 22.990,
+                 "Mg": 24.305, "P": 30.974, "S": 32.06, "Cl": 35.45, "K": 39.098, "Ca": 40.078, "Fe": 55.845,
+                 "Cu": 63.546, "Zn": 65.38, "Se": 78.971, "Br": 79.904, "I": 126.904}
+_SIDE_NAMES = ("CB", "CG", "CD", "SG", "OG", "CG1", "CG2", "OD1", "OD2", "NZ", "SD", "CE", "SE", "OG1", "P", "O1P")
+
+
+def keyword_meaning_problems_wide(table):
+    """(what, atom index) for atoms whose boolean / code / mass columns contradict the documented wording on residue
+    names for which the wording leaves no doubt.  Complements AtomTable.keyword_meaning_problems (standard residues,
+    HOH, four ions)."""
+    bad = []
+    c = table.cols
+    for i in range(table.n):
+        rn, an = c["resname"][i], c["name"][i]
+        prot = rn in STD_CODES or rn in KNOWN_MODIFIED or rn in KNOWN_CAPS
+        if rn in VMD_WATER:
+            if not c["water"][i]:
+                bad.append(("water:" + rn, i))
+            if c["protein"][i] or c["backbone"][i] or c["sidechain"][i]:
+                bad.append(("water-flagged-protein:" + rn, i))
+            if c["rescode"][i] is not None:
+                bad.append(("rescode-on-water:" + rn, i))
+        elif prot:
+            if not c["protein"][i]:
+                bad.append(("protein:" + rn, i))
+            if c["water"][i]:
+                bad.append(("protein-flagged-water:" + rn, i))
+            if an in ("N", "CA", "C", "O") and (not c["backbone"][i] or c["sidechain"][i]):
+                bad.append(("backbone:" + an, i))
+            if an in _SIDE_NAMES and (not c["sidechain"][i] or c["backbone"][i]):
+                bad.append(("sidechain:" + an, i))
+            want = STD_CODES.get(rn, KNOWN_MODIFIED.get(rn))
+            if want is not None and c["rescode"][i] != want:
+                bad.append(("rescode:" + rn, i))
+        elif rn in KNOWN_OTHER:
+            if c["water"][i] or c["protein"][i] or c["backbone"][i] or c["sidechain"][i]:
+                bad.append(("other-flagged:" + rn, i))
+            if c["rescode"][i] is not None:
+                bad.append(("rescode-on-other:" + rn, i))
+        w = ATOMIC_WEIGHT.get(c["type"][i])
+        if w is not None and not abs(c["mass"][i] - w) <= 2e-3 * w:
+            bad.append(("mass:" + c["type"][i], i))
+    return bad
+
+
+def atom_group(table, option):
+    """Documented meaning of Topology.select_atom_indices(option) over the attribute table."""
+    c = table.cols
+    n = table.n
+    if option == "all":
+        return list(range(n))
+    if option == "alpha":
+        return [i for i in range(n) if c["protein"][i] and c["name"][i] == "CA"]
+    if option == "minimal":
+        return [i for i in range(n) if c["protein"][i] and c["name"][i] in ("CA", "CB", "C", "N", "O")]
+    if option == "heavy":
+        return [i for i in range(n) if c["protein"][i] and c["type"][i] != "H"]
+    if option == "water":
+        return [i for i in range(n) if c["water"][i] and c["type"][i] == "O"]
+    raise KeyError(option)
